@@ -145,48 +145,57 @@ end DnsRef
 
 /-! ### the layer: a message that no addon modifies -/
 
+/-- what `state_query` does with one `DataReceived` whose messages no addon modifies (and, for replies, that answer a
+    pending query of the client): the SendData payloads in order, and whether it then logged a parse error and closed -/
 inductive Fwd where
-  | closed                       -- struct.error in unpack_message: Log + CloseConnection, nothing sent
-  | crashed                      -- pack_message raised: the exception leaves the layer
-  | sent (out : List Bytes)      -- the SendData payloads, in order
+  | crashed                                      -- pack_message raised: the exception leaves the layer
+  | done (out : List Bytes) (closed : Bool)
   deriving DecidableEq, Repr
 
 /-- UDP: one datagram is one message -/
 def forwardUdp (I : Idna) (data : Bytes) : Fwd :=
   match unpack I data with
-  | none => .closed
+  | none => .done [] true
   | some m =>
     match pack I m with
     | none => .crashed
-    | some b => .sent [b]
+    | some b => .done [b] false
 
 def frame (b : Bytes) : Bytes := UInt8.ofNat (b.length / 256) :: UInt8.ofNat (b.length % 256) :: b
 
-/-- `unpack_message` on a TCP segment that arrives on an empty buffer: the complete frames (`none` = struct.error) -/
-def tcpFrames : Nat → Bytes → Option (List Bytes)
-  | 0, _ => some []
+/-- the framing loop of `_unpack_messages` on a TCP segment that arrives on an empty buffer:
+    the complete frames in front of the first zero-length frame, and whether there was one -/
+def tcpFrames : Nat → Bytes → List Bytes × Bool
+  | 0, _ => ([], false)
   | fuel + 1, s =>
     match s with
     | a :: b :: rest =>
       let n := a.toNat * 256 + b.toNat
-      if n = 0 then none
-      else if rest.length < n then some []
-      else (tcpFrames fuel (rest.drop n)).map (rest.take n :: ·)
-    | _ => some []
+      if n = 0 then ([], true)
+      else if rest.length < n then ([], false)
+      else
+        let r := tcpFrames fuel (rest.drop n)
+        (rest.take n :: r.1, r.2)
+    | _ => ([], false)
+
+/-- the messages in front of the first frame that does not parse, and whether there was one
+    (`_unpack_messages` stops at it; the messages in front of it are still handled) -/
+def unpackAll (I : Idna) : List Bytes → List Msg × Bool
+  | [] => ([], false)
+  | b :: bs =>
+    match unpack I b with
+    | none => ([], true)
+    | some m => let r := unpackAll I bs; (m :: r.1, r.2)
 
 def mapM' {α β} (f : α → Option β) : List α → Option (List β)
   | [] => some []
   | x :: xs => match f x, mapM' f xs with | some y, some ys => some (y :: ys) | _, _ => none
 
 def forwardTcp (I : Idna) (data : Bytes) : Fwd :=
-  match tcpFrames data.length data with
-  | none => .closed
-  | some frames =>
-    match mapM' (unpack I) frames with
-    | none => .closed
-    | some msgs =>
-      match mapM' (pack I) msgs with
-      | none => .crashed
-      | some outs => .sent (outs.map frame)
+  let fr := tcpFrames data.length data
+  let ms := unpackAll I fr.1
+  match mapM' (pack I) ms.1 with
+  | none => .crashed
+  | some outs => .done (outs.map frame) (fr.2 || ms.2)
 
 end MitmVerif.C26
